@@ -66,7 +66,8 @@ const BOUNDS: [f64; 2] = [4.0, 64.0];
 
 pub fn gen_plan(seed: u64, mixed_kinds: bool) -> GatherPlan {
     let mut r = Rng::new(seed, 1);
-    let names = ["req_total", "a_metric", "zeta", "mid:one", "b2"];
+    // some names already begin with "<prefix>_" of the prefixes used below, one equals a prefix
+    let names = ["req_total", "a_metric", "zeta", "mid:one", "b2", "pre_x", "ns_x_b2", "pre"];
     let n = 2 + r.below(5) as usize;
     let mut metrics: Vec<MetricSpec> = vec![];
     let plain_kinds = [MK::Counter, MK::IntCounter, MK::Gauge, MK::IntGauge, MK::Histogram, MK::Pulling];
@@ -648,9 +649,12 @@ fn execute_c14(plan: &GatherPlan, mode: Mode) -> RunOut {
     for v in kinds_by_name.values_mut() {
         v.sort();
     }
+    // kinds registered under a name as the PLAN spells it
+    let shape_plan = |n: &str| -> String { kinds_by_name.get(n).map(|v| v.iter().map(|t| format!("{:?}", t).to_lowercase()).collect::<Vec<_>>().join("+")).unwrap_or_default() };
+    // ... and under a name as gather() spells it (exactly one "<prefix>_" in front)
     let shape = |name: &str| -> String {
         let n = plan.prefix.as_ref().map(|p| name.strip_prefix(&format!("{}_", p)).unwrap_or(name)).unwrap_or(name);
-        kinds_by_name.get(n).map(|v| v.iter().map(|t| format!("{:?}", t).to_lowercase()).collect::<Vec<_>>().join("+")).unwrap_or_default()
+        shape_plan(n)
     };
     for (k, rep) in reps.iter().enumerate() {
         for f in &rep.fams {
@@ -703,7 +707,7 @@ fn execute_c14(plan: &GatherPlan, mode: Mode) -> RunOut {
                 });
                 if !found {
                     let name_s = m.name.clone();
-                    out.violations.push(Violation::new("C14/printed-value", format!("C14/printed-value:{}", shape(&name_s)), format!("replica {}: the text exposition has no sample {}{:?} with the collector's value {} (collectors under this name: {})", k, name, labels, v, shape(&name_s))));
+                    out.violations.push(Violation::new("C14/printed-value", format!("C14/printed-value:{}", shape_plan(&name_s)), format!("replica {}: the text exposition has no sample {}{:?} with the collector's value {} (collectors under this name: {})", k, name, labels, v, shape_plan(&name_s))));
                 }
             }
         }
